@@ -22,7 +22,7 @@ TITLES = ["T", "Title 7", "A title of exactly forty characters long."[:40]]
 
 def alphabet():
     return [("text", "single line"), ("text", MULTI), ("text", INDENTED), ("field", "fname", "fval"),
-            ("bul", "i1", "i2"), ("enum", "e1", "e2"),
+            ("bul", "i1", "i2"), ("enum",) + tuple(f"e{n}" for n in range(1, 11)),
             ("dir", "note"), ("dir", "function", "f(a b)"),
             ("opt", "maxdepth", "2"),
             ("sec", "Sub"), ("up",), ("title", "New"), ("title", "A considerably longer title"),
